@@ -157,6 +157,7 @@ fn main() {
     writeln!(pool, "  _ => panic!(\"pool index\") }} }}").unwrap();
     std::fs::write(out.join("c10_pool.rs"), pool).unwrap();
     c10x_pool(&out);
+    c11x_pool(&out);
 }
 
 /// C10 dimension audit (aC10): a second small pool generated through `CodeGenBuilder` with the
@@ -249,4 +250,52 @@ fn c10x_pool(out: &std::path::Path) {
     }
     writeln!(x, "  _ => panic!(\"pool index\") }} }}").unwrap();
     std::fs::write(out.join("c10x_pool.rs"), x).unwrap();
+}
+
+/// C11 dimension audit (aC11): the other public constructors of the generated CLIENTS of the first
+/// pool (`with_origin`, `with_interceptor`, the compression / size-limit setters, `Clone`) and one
+/// client value used for SEVERAL calls (in turn, on fresh clones, concurrently).  Written to
+/// `c11x_pool.rs` (included by `src/c11_x.rs` only; `Tap`, `join_all` are defined there).
+fn c11x_pool(out: &std::path::Path) {
+    let ty = "crate::c10::pool";
+    let bounds = "T: tonic::client::GrpcService<tonic::body::Body>, T::Error: Into<tonic::codegen::StdError>, T::ResponseBody: tonic::codegen::Body<Data = tonic::codegen::Bytes> + Send + 'static, <T::ResponseBody as tonic::codegen::Body>::Error: Into<tonic::codegen::StdError> + Send";
+    let mut x = String::new();
+    for (i, (_, name, methods)) in POOL.iter().enumerate() {
+        let sn = naive_snake_case(name);
+        let c = format!("{ty}::p{i}::{sn}_client::{name}Client");
+        // one call: method j, tagged with its position k in the sequence
+        writeln!(x, "pub async fn call_{i}<T>(c: &mut {c}<T>, j: usize, k: usize, arg: {ty}::Req) -> Result<Vec<{ty}::Resp>, tonic::Status>\nwhere {bounds} {{\n match j {{").unwrap();
+        for (j, (_, kind)) in methods.iter().enumerate() {
+            match kind {
+                0 => writeln!(x, "  {j} => c.m{j}(super::tagged(arg, k)).await.map(|r| vec![r.into_inner()]),").unwrap(),
+                1 => writeln!(x, "  {j} => {ty}::drain(c.m{j}(super::tagged(arg, k)).await?.into_inner()).await,").unwrap(),
+                2 => writeln!(x, "  {j} => c.m{j}(super::tagged(tokio_stream::iter(vec![arg.clone(), arg]), k)).await.map(|r| vec![r.into_inner()]),").unwrap(),
+                _ => writeln!(x, "  {j} => {ty}::drain(c.m{j}(super::tagged(tokio_stream::iter(vec![arg.clone(), arg]), k)).await?.into_inner()).await,").unwrap(),
+            }
+        }
+        writeln!(x, "  _ => panic!(\"method index\") }} }}").unwrap();
+        // a sequence of calls on ONE client value
+        writeln!(x, "pub async fn run_{i}<T>(mut c: {c}<T>, mode: &str, calls: &[(usize, {ty}::Req)]) -> Vec<Result<Vec<{ty}::Resp>, tonic::Status>>\nwhere T: Clone, {bounds} {{").unwrap();
+        writeln!(x, " let mut out = Vec::new();\n match mode {{").unwrap();
+        writeln!(x, "  \"same\" => {{ for (k, (j, arg)) in calls.iter().enumerate() {{ out.push(call_{i}(&mut c, *j, k, arg.clone()).await); }} }}").unwrap();
+        writeln!(x, "  \"clones\" => {{ for (k, (j, arg)) in calls.iter().enumerate() {{ let mut d = c.clone(); out.push(call_{i}(&mut d, *j, k, arg.clone()).await); }} }}").unwrap();
+        writeln!(x, "  \"clone-used\" => {{ let mut d = None; for (k, (j, arg)) in calls.iter().enumerate() {{ if k % 2 == 0 {{ out.push(call_{i}(&mut c, *j, k, arg.clone()).await); if d.is_none() {{ d = Some(c.clone()); }} }} else {{ out.push(call_{i}(d.as_mut().unwrap(), *j, k, arg.clone()).await); }} }} }}").unwrap();
+        writeln!(x, "  \"conc\" => {{ let futs = calls.iter().enumerate().map(|(k, (j, arg))| {{ let mut d = c.clone(); let (j, arg) = (*j, arg.clone()); Box::pin(async move {{ call_{i}(&mut d, j, k, arg).await }}) }}).collect::<Vec<_>>(); out = super::join_all(futs).await; }}").unwrap();
+        writeln!(x, "  _ => panic!(\"mode\") }}\n out }}").unwrap();
+    }
+    writeln!(x, "pub async fn client_seq(i: usize, ctor: &str, mode: &str, calls: &[(usize, {ty}::Req)], t: super::Tap) -> Vec<Result<Vec<{ty}::Resp>, tonic::Status>> {{\n use tonic::codec::CompressionEncoding as CE;\n match i {{").unwrap();
+    for (i, (_, name, _)) in POOL.iter().enumerate() {
+        let sn = naive_snake_case(name);
+        let c = format!("{ty}::p{i}::{sn}_client::{name}Client");
+        writeln!(x, "  {i} => match ctor {{").unwrap();
+        writeln!(x, "    \"new\" => run_{i}({c}::new(t), mode, calls).await,").unwrap();
+        writeln!(x, "    \"origin\" => run_{i}({c}::with_origin(t, http::Uri::from_static(\"http://origin.example:8080\")), mode, calls).await,").unwrap();
+        writeln!(x, "    \"origin-slash\" => run_{i}({c}::with_origin(t, http::Uri::from_static(\"https://origin.example/\")), mode, calls).await,").unwrap();
+        writeln!(x, "    \"icept\" => run_{i}({c}::with_interceptor(t, |r: tonic::Request<()>| Ok(r)), mode, calls).await,").unwrap();
+        writeln!(x, "    \"conf\" => run_{i}({c}::new(t).accept_compressed(CE::Gzip).accept_compressed(CE::Zstd).max_decoding_message_size(1 << 20).max_encoding_message_size(1 << 20), mode, calls).await,").unwrap();
+        writeln!(x, "    \"cloned\" => {{ let a = {c}::new(t); let b = a.clone(); drop(a); run_{i}(b.clone(), mode, calls).await }}").unwrap();
+        writeln!(x, "    _ => panic!(\"ctor\") }},").unwrap();
+    }
+    writeln!(x, "  _ => panic!(\"pool index\") }} }}").unwrap();
+    std::fs::write(out.join("c11x_pool.rs"), x).unwrap();
 }
